@@ -112,6 +112,10 @@ func newEmptyLinkedBuffer(manager *bufferManager) *linkedBuffer {
 }
 
 func (l *linkedBuffer) Len() int {
+	// for a stream's read buffer, the data which was received but hadn't been moved out of pendingData is unread data too.
+	if s := l.stream; s != nil && s.recvBuf == l {
+		s.pendingData.moveTo(l)
+	}
 	return l.len
 }
 
